@@ -348,7 +348,60 @@ func burstMain(p BurstParams) {
 				brss = append(brss, h.t)
 			}
 		}
-		if cycles == bursts+1 && len(ares) >= 1 && len(brss) >= 2 && brss[1]-ares[0] < 1000 && brss[1] >= ares[0] {
+		// Where did the surplus cycle come from? Every notification that did not itself start a cycle (no
+		// BeforeRebalanceStart within 1 ms of it) is placed in the lifecycle:
+		//   - inside the close phase of the FIRST cycle of the session (rebalanceTimer still nil): its
+		//     Rebalance() call queues on the rebalance lock and runs a cycle of its own right after the re-open;
+		//   - while a re-open is running, or inside the close phase of a LATER cycle (the timer the debounce
+		//     branch finds has already fired): the branch re-schedules Rebalance() itself one delay later.
+		var arss, bres []int64
+		for _, h := range hlog[readyIdx:] {
+			if h.name == "ARS" {
+				arss = append(arss, h.t)
+			}
+			if h.name == "BRE" {
+				bres = append(bres, h.t)
+			}
+		}
+		origin2, origin3 := false, false
+		for _, nt := range ns {
+			if !nt.took {
+				continue
+			}
+			starter := false
+			for _, bt := range brss {
+				if nt.at <= bt && bt-nt.at < int64(time.Millisecond) {
+					starter = true
+				}
+			}
+			if starter {
+				// (two notifications at the same instant: only one of them starts the cycle)
+				n := 0
+				for _, o := range ns {
+					if o.took && o.at <= nt.at+int64(time.Millisecond) && nt.at <= o.at+int64(time.Millisecond) {
+						n++
+					}
+				}
+				if n < 2 {
+					continue
+				}
+			}
+			for i := range brss {
+				if i < len(arss) && nt.at >= brss[i]-1000 && nt.at <= arss[i]+1000 {
+					if i == 0 {
+						origin2 = true
+					} else {
+						origin3 = true
+					}
+				}
+				if i < len(bres) && i < len(ares) && nt.at >= bres[i]-1000 && nt.at <= ares[i]+1000 {
+					origin3 = true
+				}
+			}
+		}
+		if cycles > maxB && origin3 {
+			why = " [a cycle that no notification started: Rebalance() re-scheduled by the debounce branch, which found a timer that had already fired, ran as a full extra cycle one delay later]"
+		} else if cycles > maxB && origin2 {
 			direct := false
 			for _, nt := range ns {
 				if nt.src == "api-rebalance" {
@@ -362,28 +415,6 @@ func burstMain(p BurstParams) {
 				// notifications that all came over the bus are handed to the listener one at a time (transactional
 				// subscription): two of them inside Rebalance() at once must not happen
 				why = " [a second Rebalance() was queued on the rebalance lock although every notification came over the bus, whose listener runs one notification at a time]"
-			}
-		}
-		if why == "" && cycles == bursts+1 {
-			// a cycle that no notification started and that does not follow a re-open immediately: it was started
-			// by a timer. Rebalance()'s debounce branch, finding the timer of the PREVIOUS cycle already fired
-			// (the current cycle is still closing the stream and has not armed its own timer yet), re-schedules
-			// Rebalance() itself one delay later, which then runs as a full extra cycle.
-			for _, b := range brss {
-				started, afterARE := false, false
-				for _, nt := range ns {
-					if nt.took && nt.at <= b && b-nt.at < int64(time.Millisecond) {
-						started = true
-					}
-				}
-				for _, a := range ares {
-					if b >= a && b-a < 1000 {
-						afterARE = true
-					}
-				}
-				if !started && !afterARE {
-					why = " [a cycle that no notification started: Rebalance() re-scheduled by the debounce branch, which found a timer that had already fired, ran as a full extra cycle one delay later]"
-				}
 			}
 		}
 		vrt.Failf("%s: %d burst(s) of notifications but the stream was closed and re-opened %d time(s) (%s)%s", d, bursts, cycles, seq, why)
